@@ -98,7 +98,7 @@ def check(rep, model, tier):
         lab = dict(r[1]).get('is_burst') if r and r[0] == 'table' else None
         dsite = f'{f.path}:{f.node.lineno} {det}'
         if lab is None:
-            rep.unresolved('EMPTY-EPOCH', det, dsite, 'no is_burst term')
+            rep.violation('EMPTY-EPOCH', det, dsite, expected='a table with an is_burst column', found=T.brief(r, 160) if r else 'no value returned')
             continue
         unguarded = [s for a in T.walk(lab) if a[0] == 'arr' for s in a[2]
                      if T.isconst(s[0]) and isinstance(s[0][1], int) and not any(x[0] in ('nrows', 'len') for x in T.walk(s[2]))]
